@@ -166,7 +166,8 @@ def _scale(v):
     m = 0.0
     for e in v:
         if _isnum(e):
-            a = abs(complex(e))
+            c = complex(e)
+            a = max(abs(c.real), abs(c.imag))        # no hypot: the parts may be near the float maximum
             if math.isfinite(a) and a > m:
                 m = a
     return m
